@@ -209,7 +209,10 @@ def failpoints(ctx, m):
     nm = importlib.import_module("ural.normalize_url")  # (the package attribute of that name is the function)
     fm = importlib.import_module("ural.fingerprint_url")
     for mod, fn, kw in ((nm, m.get_normalized_hostname, {}), (fm, m.get_fingerprinted_hostname, {})):
-        orig = mod.urlsplit
+        orig = getattr(mod, "urlsplit", None)
+        if orig is None:
+            ctx.count("failpoint-checked:not-applicable")
+            continue
         calls = {"n": 0}
 
         def boom(*a, **k):
